@@ -435,6 +435,22 @@ int main(int argc, char** argv)
     for (double d : { -0.0, 0.0, 1.0, 42.0, 0.5 })
         gv.emplace_back(d);
     check_hash_eq("variant<int,string,double>", gv, [](const V& v) { return hash(v); });
+    {
+        // values of the same alternative that differ must not collide systematically
+        long pairs = 0, coll = 0;
+        for (std::size_t i = 0; i < gv.size(); ++i)
+            for (std::size_t j = i + 1; j < gv.size(); ++j)
+                if (gv[i].index() == gv[j].index() && !(gv[i] == gv[j]))
+                {
+                    ++pairs;
+                    coll += hash(gv[i]) == hash(gv[j]);
+                }
+        stats["variant-same-alternative-pairs"] = pairs;
+        stats["variant-same-alternative-collisions"] = coll;
+        if (coll * 100 > pairs)
+            viol("variant<int,string,double>:hash-ignores-the-value-of-an-alternative",
+                 std::to_string(coll) + " collisions among " + std::to_string(pairs) + " pairs");
+    }
     check_set<nitro::lang::unordered_set<V>>("unordered_set<variant<int,string,double>>", gv, seed + 4);
     {
         // nested: tuple of variant and pair
